@@ -12,15 +12,15 @@
 #ifndef NBRHS
 #define NBRHS 2
 #endif
-struct VerifMultipole { long v[2]; };
-struct VerifLocal { long v[3]; };
+struct TbfVerifMultipole { long m0; };
+struct TbfVerifLocal { long l0; };
 using Cfg = TbfSpacialConfiguration<double, DIM>;
 using M = TbfMortonSpaceIndex<DIM, Cfg, false>;
-using Cells = TbfCellsContainer<double, VerifMultipole, VerifLocal, M>;
+using Cells = TbfCellsContainer<double, TbfVerifMultipole, TbfVerifLocal, M>;
 using Parts = TbfParticlesContainer<double, double, NBDATA, long, NBRHS, M>;
 long verif_driver(Cells& c, const Cells& cc, Parts& p, const Parts& cp, const M& m, long i){
   long r = cc.getNbCells() + cc.getStartingSpacialIndex() + cc.getEndingSpacialIndex() + cc.getCellSpacialIndex(i);
-  r += cc.getCellSymbData(i).spaceIndex + c.getCellMultipole(i).v[0] + cc.getCellMultipole(i).v[0] + c.getCellLocal(i).v[0] + cc.getCellLocal(i).v[0];
+  r += cc.getCellSymbData(i).spaceIndex + c.getCellMultipole(i).m0 + cc.getCellMultipole(i).m0 + c.getCellLocal(i).l0 + cc.getCellLocal(i).l0;
   r += cc.getCellBoxCoord(i)[0];
   auto f = cc.getElementFromSpacialIndex(i); if(f) r += *f;
   auto g = cc.getElementFromParentIndex(m, i); if(g) r += *g;
